@@ -1,4 +1,5 @@
 import Rare.Proofs.C11Str
+import Rare.Gen.C11
 /-!
 # C11 — scalar helper functions follow their documented semantics
 
@@ -290,5 +291,44 @@ theorem haskey_spec (c : Ctx) (key : Arg) (content : Bytes) (hm : Misc.lookupMod
 
 example : Misc.tableGet (Misc.buildLookupTable (ascii "a 1\n#a 9\nb\na 2\nx y z") (ascii "#")) (ascii "a")
     = some (ascii "2") := by decide +kernel
+
+/-! ## the same laws for the definitions regenerated from /repo on every run
+
+`Rare.Gen.C11` is produced by `harness/extract/c11.go` from the Go AST of `kfBucket` /
+`kfBucketRange` (statement blocks of the run-time closures), `pkg/humanize/units.go` and
+`stdlib/errors.go`.  A changed comparison, operator or table entry in /repo changes these
+definitions and the theorems below stop checking. -/
+
+theorem gen_bucket_eq_model (v s : Int) : Gen.C11.bucket v s = Arith.bucketVal v s := by
+  simp [Gen.C11.bucket, Arith.bucketVal]
+
+/-- `bucket_floor` for the code as it is in /repo now. -/
+theorem gen_bucket_floor (v s : Int) (hs : 0 < s) (hv : inInt64 v = true) (hs64 : s ≤ maxInt64)
+    (hr : minInt64 ≤ Spec.floorBucket v s) :
+    Gen.C11.bucket v s = Spec.floorBucket v s ∧ Spec.IsBucket v s (Gen.C11.bucket v s) := by
+  rw [gen_bucket_eq_model]
+  exact ⟨(bucket_floor v s hs hv hs64 hr).1, (bucket_floor v s hs hv hs64 hr).2.1⟩
+
+/-- `bucketrange_spec` for the code as it is in /repo now: the two ends are `b` and `b + s - 1`. -/
+theorem gen_bucketrange_spec (v s : Int) (hs : 0 < s) (hv : inInt64 v = true) (hs64 : s ≤ maxInt64)
+    (hlo : minInt64 ≤ Spec.floorBucket v s) (hhi : Spec.floorBucket v s + s - 1 ≤ maxInt64) :
+    Gen.C11.bucketRange v s = (Spec.floorBucket v s, Spec.floorBucket v s + s - 1) := by
+  have e : Gen.C11.bucketRange v s = (Arith.bucketVal v s, Arith.bucketEnd (Arith.bucketVal v s) s) := by
+    simp [Gen.C11.bucketRange, Arith.bucketVal, Arith.bucketEnd]
+  rw [e, bucketVal_eq_floor v s hs hv hs64 hlo]
+  have hb := (floorBucket_isBucket v s hs).2.1
+  rw [inInt64_iff] at hv
+  unfold Arith.bucketEnd
+  rw [wrap64_id (x := s - 1) (by i64) (by i64), wrap64_id (by i64) (by i64)]
+  congr 1; omega
+
+/-- Unit tables and error markers of the model are the ones in /repo. -/
+theorem gen_tables :
+    Gen.C11.iecSizes = Strings.iecSizes ∧ Gen.C11.siSizes = Strings.siSizes ∧ Gen.C11.unitSize = Strings.unitSize ∧
+    ascii Gen.C11.markerErrorNum = ErrorNum ∧ ascii Gen.C11.markerErrorValue = ErrorValue ∧
+    ascii Gen.C11.markerErrorArgCount = ErrorArgCount ∧ ascii Gen.C11.markerErrorConst = ErrorConst := by
+  decide +kernel
+
+example : Gen.C11.bucket (-100) 50 = -100 ∧ Gen.C11.bucketRange (-100) 50 = (-100, -51) := by decide
 
 end Rare.C11
